@@ -441,19 +441,25 @@ func VerifIn() {
 	ctx := vNewTask(in)
 	L, N := verifnd.Param("L", 2), verifnd.Param("N", 2)
 	lv, lt := vValue(lc, L, 1)
-	rv, rt := vValue(rc, L, N)
+	var rv any
+	var rt ast.DType
 	if rc == vcMap {
-		// map values of every class, nil included: key presence must not depend on the value
+		// map values of every class, nil included: key presence must not depend on the value.
+		// With a non-string left operand the contents do not matter (one representative).
 		m := map[string]any{}
 		names := []string{"k0", "k1", "k2"}
-		nk := verifnd.Int(0, N)
-		for i := 0; i < nk; i++ {
-			m[names[i]], _ = vScalar(verifnd.Int(vcNil, vcString), L)
-		}
-		rv = m
 		if lc == vcString {
+			nk := verifnd.Int(0, N)
+			for i := 0; i < nk; i++ {
+				m[names[i]], _ = vScalar(verifnd.Int(vcNil, vcString), L)
+			}
 			lv = []string{"k0", "k1", "zz", ""}[verifnd.Choice(4)] // present and absent keys
+		} else {
+			m["k0"] = int64(1)
 		}
+		rv, rt = m, ast.Map
+	} else {
+		rv, rt = vValue(rc, L, N)
 	}
 	if rc == vcList {
 		// lists may hold lists and maps (load_json output): membership of a container among
